@@ -15,6 +15,7 @@ def run(rep):
     rep.guard(g6, rep, w)
     rep.guard(g7, rep, w)
     rep.guard(g8, rep, w)
+    rep.guard(g9, rep, w)
 
 
 def g1(rep, w):
@@ -509,3 +510,26 @@ def g8(rep, w):
                 'after they have finished' % e, '')
     if not edges:
         raise Broken('C16', 'anchor', 'ObjFiber has no fiber-typed field (caller link not found)')
+
+
+def g9(rep, w):
+    """a class is garbage once nothing refers to it: classes point *up* (to the superclass and the metaclass, two single slots) and at their
+    methods. An edge the other way - a list of subclasses, instances or anything else that grows as the program declares and creates things,
+    kept in a class and traced - makes every class ever declared in a function or a loop reachable from `Object` for good."""
+    c = w.yarel
+    r = rep.rule('G9', 'a class refers to other classes only through its single superclass / metaclass slots (no growing class-to-class edge)', floor=2)
+    adt = c.adts.get('yarel::object::ObjClass')
+    if adt is None:
+        raise Broken('C16', 'anchor', 'ObjClass not found')
+    n = 0
+    for fd in adt['variants'][0]['fields']:
+        ts = c.tstr(fd['t'])
+        if 'ObjClass' not in ts and 'ObjInstance' not in ts:
+            continue
+        n += 1
+        single = not any(k in ts for k in ('Vec<', 'HashMap<', 'VecDeque<', 'HashSet<', 'BTreeMap<', 'Stack<', 'LinkedList<'))
+        r.check(single, 'ObjClass.%s is a single slot' % fd['n'],
+                'ObjClass.%s (%s) is a collection of classes / instances held by a class: every entry stays reachable as long as the class is - from a core class, for ever' % (fd['n'], ts),
+                '%s:%d' % (c.files[adt['file']], adt['line']))
+    if n < 2:
+        raise Broken('C16', 'floor', 'G9: only %d class-to-class edges found in ObjClass' % n)
